@@ -203,7 +203,36 @@ def rule_cli_agreement(ctx):
     ctx.floor("fakesnow command line options", opts, 2)
 
 
+def rule_split_flag_state(ctx):
+    """C20.e: a boolean state of split() that is raised inside its scan is lowered inside it too ("the previous token
+    was an option" must end with the token that is its value) — otherwise every later positional is taken for a value."""
+    prog = ctx.prog
+    if "cli" not in prog.modules or not prog.has_fn("cli", "split"):
+        return
+    m = prog.mod("cli")
+    fn = prog.fn("cli", "split")
+    loops = [l for l in ast.walk(fn) if isinstance(l, (ast.For, ast.While))]
+    n = 0
+    for lp in loops:
+        raised, lowered = set(), set()
+        for s_ in ast.walk(lp):
+            if isinstance(s_, ast.Assign) and isinstance(s_.value, ast.Constant) and isinstance(s_.value.value, bool):
+                for t in s_.targets:
+                    if isinstance(t, ast.Name):
+                        (raised if s_.value.value else lowered).add(t.id)
+        for v in sorted(raised):
+            n += 1
+            ok = v in lowered
+            ctx.ob("C20.e", f"split(): state `{v}` set inside the scan is also cleared inside it", ok, m.loc(lp))
+            if not ok:
+                ctx.violation("C20.e", "cli", "split", f"state `{v}` never cleared", m.loc(lp),
+                              f"`{v}` is set to True while scanning the arguments but never reset inside the scan: after one value-taking option "
+                              f"(`-d dir`) the script path no longer ends fakesnow's own arguments and the target receives none of its arguments")
+    ctx.floor("split() state variables", n, 1)
+
+
 RULES = [
+    ("C20.e", rule_split_flag_state, ("quick", "thorough")),
     ("C20.d", rule_cli_agreement, ("quick", "thorough")),
     ("C20.a", rule_release, ("quick", "thorough")),
     ("C20.c", rule_targets, ("quick", "thorough")),
